@@ -95,7 +95,7 @@ def line(c):
     if c["kind"] == "slow":
         return None
     m = _mod(c)
-    return m.line(c) if m else ev1.line(c)
+    return (m.line(c) if m else ev1.line(c)) + " consults=1"
 
 
 def run_capped(c):
@@ -138,11 +138,20 @@ def impl(c):
         from .. import fmt
         return fmt.err(exc)
     from .. import fmt
-    return "ok rows=" + fmt.mat(ev1.scaled_rows(res, c))
+    return "ok rows=" + fmt.mat(ev1.scaled_rows(res, c)) + " consults=" + "/".join("%s@%d" % (fmt.mat(rows), t) for rows, t in pred.calls)
+
+
+def strip_calls_keep_consults(ans):
+    """Drop the rule-call trace (not part of this property's tie), keep rows and the predicate's consultation trace."""
+    i = ans.find(" calls=")
+    if i < 0:
+        return ans
+    j = ans.find(" consults=")
+    return ans[:i] + (ans[j:] if j >= 0 else "")
 
 
 def compare(c, a, b):
-    return ev1.strip_calls(a) == ev1.strip_calls(b)
+    return strip_calls_keep_consults(a) == strip_calls_keep_consults(b)
 
 
 def oracle(c):
